@@ -179,6 +179,16 @@ fn handle(req: &Value) -> Value {
                 _ => json!({"colon": compiler::query::colon_colon_completions(path, src, line, col).map(|v| v.into_iter().map(|i| i.name).collect::<Vec<_>>())}),
             }
         }
+        "query_file" => {
+            // an editor query on a file on disk (so that imports resolve): which (hover | dot | colon), path, line, col
+            let which = a[0].as_str().unwrap(); let path = std::path::Path::new(a[1].as_str().unwrap()); let src = std::fs::read_to_string(path).unwrap();
+            let line = a[2].as_u64().unwrap() as u32; let col = a[3].as_u64().unwrap() as u32;
+            match which {
+                "hover" => json!({"hover": format!("{:?}", compiler::query::hover_type(path, &src, line, col))}),
+                "dot" => json!({"dot": compiler::query::dot_completions(path, &src, line, col).map(|v| v.into_iter().map(|i| i.name).collect::<Vec<_>>())}),
+                _ => json!({"colon": compiler::query::colon_colon_completions(path, &src, line, col).map(|v| v.into_iter().map(|i| i.name).collect::<Vec<_>>())}),
+            }
+        }
         "encode_ty" => json!(compiler::go::mangle::encode_ty(&ty_from_json(&a[0]))),
         _ => json!({"error": format!("unknown fn {f}")}),
     }
